@@ -63,6 +63,13 @@ package query_context
 //@   ensures result.clientOpt != nil ==> plainOpt(result.respOpt)
 //@   ensures result.clientOpt != nil ==> optDo(result.respOpt) == optDo(result.clientOpt)
 
+//@ func (ctx *Context) Id
+//@   requires ctx != nil
+//@   ensures result == ctx.id
+//@ func (ctx *Context) QQuestion
+//@   requires ctx != nil && ctx.query != nil && len(ctx.query.Question) >= 1
+//@   ensures result == ctx.query.Question[0]
+
 //@ func (ctx *Context) Q [C15]
 //@   log ctxQ
 //@   requires ctx != nil
